@@ -9,7 +9,9 @@ aggregators, `LimitPlanner`, scanner buffer, TraceQL rows, Tempo trace id, with 
 and the goroutine that runs each piece deciding what a fault means) and `Qryn.ReadSide.Pipe` (Pipeline.lean: the channel
 pipeline as a transition system). `Gen.ReadSide` is regenerated from /repo on every run: every `go` statement of the
 request path with whether it recovers, every HTTP handler with whether it starts with `defer tamePanic`, the guard
-conditions of the modelled arithmetic as source text, and the constants.
+conditions of the modelled arithmetic as source text, and the constants. `Gen.ReadGoroutines` (also regenerated):
+the fault-site census of every goroutine started under reader/ and the receive loops of the handlers; its review is
+`ReadSide/Census.lean`. `ReadSide/PipelineH.lean`: the pipeline with the HTTP handler as a component.
 
 What is NOT proved here (explored in child processes by the harness instead): the Go scheduler, memory, context
 propagation inside `database/sql`, Prometheus' engine, the third-party parsers. -/
@@ -39,14 +41,14 @@ theorem aggregator_guards_as_modelled :
 theorem limit_conditions_as_modelled :
     ReadSide.limitConds = ["limit == 0", "sent >= limit", "sent+len(entries) < limit", "ctx.CancelCtx != nil"] := by decide
 
-/-- the goroutines of the request path that run WITHOUT a recover (pure drains and `close` one-liners left out).
-    Each is covered below or has no fault site:
+/-- the goroutines of the request path that run WITHOUT a recover (pure drains and `close` one-liners left out) — the
+    inventory of the first round, kept; `fault_site_census` below covers every `go` statement under reader/ and lists
+    the fault sites of each. Where the arithmetic is modelled:
     * `FixPeriodPlanner.Process#1` — arithmetic and slicing: `detached_goroutines_fault_free` (1);
     * `ClickhouseGetterPlanner.Process#1/#2` (`Scan`, `ScanMatrix`) — the batch buffer: (2);
     * `TraceQLRequestProcessor.Process#1` — three parallel arrays of one `groupArray` row: (3);
-    * the exporters (`QueryRange#1/#2`, `QueryInstant#1/#2`, `Tail#1`), the label/series/tag/value/search senders and
-      the forwarding loops: channel operations, `rows.Scan` into locals and JSON encoding only — no index, slice,
-      division, allocation-by-parameter or type assertion. -/
+    * the exporters, the label/series/tag/value/search senders and the forwarding loops have, by the census, no index,
+      slice, division, allocation-by-parameter or type-assertion site at all: only sends and their own `close`. -/
 def detachedModelled : List String :=
   ["service/queryLabelsService.go:QueryLabelsService.GenericLabelReq#1",
    "service/queryLabelsService.go:QueryLabelsService.Series#1",
